@@ -150,7 +150,9 @@ class Trace:
 
     def __init__(self, names: Sequence[str]) -> 'Trace':
         """Initialise an empty object with variable names `names`."""
-        self.names: Sequence[str] = names
+        # Copy, so that the trace does not change if the caller's list does
+        # (e.g. the model's own `names`, which grows with `add_variable()`)
+        self.names: Sequence[str] = list(names)
 
         # Initialise other attributes as empty variables
         self.index: List[Any] = []
